@@ -50,7 +50,7 @@ var allScopes = []string{
 	tmplgen.ScopeRenderOtherFormat, tmplgen.ScopeRegexQuote, tmplgen.ScopeTemplateQuote, tmplgen.ScopeTemplateHole,
 	tmplgen.ScopeCSSCommentQuote, tmplgen.ScopeEventAttr, tmplgen.ScopeStyleAttr, tmplgen.ScopeTagSpace, tmplgen.ScopeDoubleEscaped,
 	tmplgen.ScopeEscapedBackslash, tmplgen.ScopeUnquotedEmpty, tmplgen.ScopeJSCommentHole, tmplgen.ScopeMinusAdjacent,
-	tmplgen.ScopeScriptTypeJS, tmplgen.ScopeMDBareURL, tmplgen.ScopeMDAutolink, tmplgen.ScopeMDURLMacro, tmplgen.ScopeMDEmphasisAdj, tmplgen.ScopeCommentQuote, tmplgen.ScopeImportMap, tmplgen.ScopeTypedMacroTag,
+	tmplgen.ScopeScriptTypeJS, tmplgen.ScopeMDBareURL, tmplgen.ScopeMDAutolink, tmplgen.ScopeMDURLMacro, tmplgen.ScopeMDEmphasisAdj, tmplgen.ScopeCommentQuote, tmplgen.ScopeImportMap, tmplgen.ScopeTypedMacroTag, tmplgen.ScopeRawTextTagQuote,
 }
 
 func (prop) Drive(d *core.Driver) error {
@@ -244,7 +244,11 @@ func (prop) Work(c core.Case) core.Result {
 	}
 	sk0, hints := skeletonOf(format, out0, allMarks, nil)
 	benignBroken := ""
-	if sk0.errs > 0 {
+	openEnded := false
+	for _, f := range doc.Features {
+		openEnded = openEnded || f == tmplgen.FeatureOpenEnded
+	}
+	if sk0.errs > 0 && !openEnded { // (an element that deliberately ends inside a comment or literal does not tokenize)
 		// Either the generator wrote invalid code or the benign value itself was shown in
 		// the wrong context. The comparison still goes on (a hostile value that repairs or
 		// changes the broken structure is a violation); if nothing is found the case is
